@@ -295,6 +295,10 @@ def _leaf(kind):
             ft[tuple(t)] = struct.unpack("<Q", struct.pack("<d", float(t)))[0]
             out += [len(t)] + list(t)
         return out, ft
+    if kind == "J":
+        # (pseudo-kind) 3.4+: an interned str that is not ASCII is written with 't'; this one holds a lone surrogate (UTF-8 with surrogatepass)
+        b = "\ud800 y".encode("utf-8", "surrogatepass")
+        return [ord("t")] + le32(len(b)) + list(b), ft
     if kind in "stuaA":
         b = b"abc" if kind in "aA" else "h\u00e9".encode("utf-8")
         return [ord(kind)] + le32(len(b)) + list(b), ft
@@ -313,7 +317,7 @@ def leaves_of(fam):
     if f["interned"] or f["v34"]:
         ks.append("t")
     if f["v34"]:
-        ks += list("aAzZ")
+        ks += list("aAzZJ")
     return ks
 
 
